@@ -464,6 +464,10 @@ func (c *Core) localDelivery(bp BundleDescriptor) {
 
 	if err := c.agentManager.Deliver(bp); err != nil {
 		log.WithField("bundle", bp.ID()).WithError(err).Warn("Delivering local bundle errored")
+
+		// No hand-over took place: neither report a delivery nor release the bundle, it is retried later.
+		c.bundleContraindicated(bp)
+		return
 	}
 
 	if bp.MustBundle().PrimaryBlock.BundleControlFlags.Has(bpv7.StatusRequestDelivery) {
